@@ -24,6 +24,33 @@ import (
 
 var c16Shapes = []string{"LS", "LA", "LI", "TX", "TR"}
 
+// LT / LK: log event whose only un-indexed selected data are the COMPONENTS of a tuple[] (3 elements) /
+// tuple[2] input: one row per array element although no top-level un-indexed input is selected
+// (identity: …, tx_idx, log_idx, abi_idx). world.Decl has no tuples: the components are added to the
+// rendered configuration, the logs are built with package ref and the expectation is computed here.
+var c16AllShapes = []string{"LS", "LA", "LI", "TX", "TR", "LT", "LK"}
+
+func c16TupleDims(d *world.Decl) (int, bool) {
+	switch d.Event {
+	case "Fill":
+		return 0, true
+	case "FillK":
+		return 2, true
+	}
+	return 0, false
+}
+
+func c16TupleNodes(k int) []*ref.Node {
+	return []*ref.Node{ref.Leaf("address"), ref.Tuple([]*ref.Node{ref.Leaf("address"), ref.Leaf("uint256")}, k)}
+}
+
+func c16TupleElems(k int) int {
+	if k == 0 {
+		return 3
+	}
+	return k
+}
+
 func c16Decl(shape, name, table string, srcs []world.SrcRef) *world.Decl {
 	d := &world.Decl{Name: name, Table: table, Sources: srcs}
 	switch shape {
@@ -46,6 +73,15 @@ func c16Decl(shape, name, table string, srcs []world.SrcRef) *world.Decl {
 			{Name: "a", Type: "address", Indexed: true, Column: "a"},
 			{Name: "n", Type: "uint256", Indexed: true, Column: "n"},
 		}
+	case "LT", "LK":
+		d.Event, d.Inputs = "Fill", []world.Input{
+			{Name: "maker", Type: "address", Indexed: true, Column: "maker"},
+			{Name: "items", Type: "tuple[]"},
+		}
+		if shape == "LK" {
+			d.Event, d.Inputs[1].Type = "FillK", "tuple[2]"
+		}
+		d.ExtraCols = [][2]string{{"token", "bytea"}, {"amount", "numeric"}}
 	case "TX":
 		d.Fields = []world.Field{{Name: "tx_hash", Column: "tx_hash"}, {Name: "tx_value", Column: "tx_value"}, {Name: "tx_input", Column: "tx_input"}}
 	case "TR":
@@ -59,7 +95,7 @@ func c16Decl(shape, name, table string, srcs []world.SrcRef) *world.Decl {
 // c16Class names the identity class of a shape (which columns tell its rows apart).
 func c16Class(shape string) string {
 	switch shape {
-	case "LS", "LA":
+	case "LS", "LA", "LT", "LK":
 		return "log+abi"
 	case "LI":
 		return "log"
@@ -76,7 +112,7 @@ func c16Class(shape string) string {
 func c16Identity(shape string) []string {
 	id := []string{"ig_name", "src_name", "block_num", "tx_idx"}
 	switch shape {
-	case "LS", "LA":
+	case "LS", "LA", "LT", "LK":
 		id = append(id, "log_idx", "abi_idx")
 	case "LI":
 		id = append(id, "log_idx")
@@ -115,6 +151,16 @@ func c16Scalar(typ, seed string) []byte {
 }
 
 func c16Log(d *world.Decl, seed string) *simeth.Log {
+	if k, ok := c16TupleDims(d); ok {
+		nodes := c16TupleNodes(k)
+		var els []any
+		for e := 0; e < c16TupleElems(k); e++ {
+			els = append(els, []any{c16Scalar("address", fmt.Sprintf("%s/tok/%d", seed, e)), c16Scalar("uint256", fmt.Sprintf("%s/amt/%d", seed, e))})
+		}
+		return &simeth.Log{Address: simeth.Addr("c16-contract"),
+			Topics: [][]byte{ref.Topic0(d.Event, nodes), c16Scalar("address", seed+"/maker")},
+			Data:   ref.EncodeInputs(nodes[1:], []ref.Value{els}), Tag: d.Name}
+	}
 	var vals []ref.Value
 	for i, in := range d.Inputs {
 		s := fmt.Sprintf("%s/%s/%d", seed, in.Name, i)
@@ -163,6 +209,45 @@ func c16Chain(decls []*world.Decl, nBlocks int, salt uint64) *simeth.Chain {
 		specs = append(specs, bs)
 	}
 	return simeth.Build(specs, salt)
+}
+
+// c16Expected: number of rows (d, src) must have emitted for blocks 1..2 of chain and the columns every one of
+// them carries.
+func c16Expected(d *world.Decl, shape string, chain *simeth.Chain, src string, chainID uint64) (int, []string) {
+	if k, ok := c16TupleDims(d); ok {
+		t0 := ref.Topic0(d.Event, c16TupleNodes(k))
+		n := 0
+		for _, b := range chain.Blocks {
+			for _, tx := range b.Txs {
+				for _, l := range tx.Logs {
+					if len(l.Topics) == 2 && string(l.Topics[0]) == string(t0) {
+						n += c16TupleElems(k)
+					}
+				}
+			}
+		}
+		cols := []string{"maker", "token", "amount"}
+		supplied := map[string]bool{}
+		for _, f := range d.Fields {
+			supplied[f.Name] = true
+			cols = append(cols, f.Column)
+		}
+		for _, f := range c16Identity(shape) {
+			if !supplied[f] {
+				cols = append(cols, f)
+			}
+		}
+		return n, cols
+	}
+	want := d.Expect(chain, src, chainID, 1, 2, nil)
+	if len(want) == 0 {
+		return 0, nil
+	}
+	var cols []string
+	for c := range want[0] {
+		cols = append(cols, c)
+	}
+	return len(want), cols
 }
 
 // ---- PostgreSQL key words that cannot be used as a column or table name without quoting ----------------
